@@ -14,7 +14,7 @@ SPEC = {
         ('K-trans/K-obs(proper probabilities)', 'trans', 'proper-probability'),
         ('K-obs', 'obs', 'proper-probability'),
         ('no-raise(update)', 'update', 'no-raise|update:returns'),
-        ("match(no exception except the documented one; the trace is stored as given)", 'match', r'^(no-raise|init:fresh|result:is-a-pair)'),
+        ("match(no exception except the documented one; the trace is stored as given; a call without expand starts round 0 whatever the matcher did before - a stale round number makes _create_start_nodes keep the lattice of the previous trace)", 'match', r'^(no-raise|init:(fresh|round-reset)|result:is-a-pair)'),
         ("_match_non_emitting_states(the depth counter never exceeds the bound)", 'ne_levels', r'^levels:(body-entered|depth-counter)'),
         ("_node_in_prev_ne(recursion depth bounded by the non-emitting depth, under the lattice invariant)", 'visited', r'^visited:'),
         ("BaseMatcher.__init__(default depth bound leaves stack headroom: bound + 200 <= 1000)", 'ne_depth', r'^depth:')],
